@@ -10,7 +10,7 @@ Import ListNotations.
 Open Scope nat_scope.
 
 Section Frames.
-Context {D SY : Type} (dops : dict_ops D) (sops : syl_ops SY) (conv : conv_fn).
+Context {D SY : Type} (dops : dict_ops D) (sops : syl_ops SY) (conv : conv_fn D).
 Notation shared' := (shared D SY).
 Notation editor' := (editor D SY).
 
